@@ -1,5 +1,30 @@
-import QipVerif.Util.Proto
-/-! Driver stub (to be filled in by the owner of this model). -/
-open QipVerif.Proto
-def step (_line : String) : String := "bad-op"
+import QipVerif.Util.GateIO
+import QipVerif.Gen.DecompTables
+/-! Driver for the `resolve_gates` model (C03).
+
+* `resolve keep=0|1 basis=str:NAME | list:N1,N2,.. gates=<list>` → `ok <list>` | `err <kind>`
+-/
+open QipVerif QipVerif.Proto QipVerif.GateIO QipVerif.Decomp
+
+def errName : Err → String
+  | .notSufficient1q => "notSufficient1q" | .invalid2q => "invalid2q"
+  | .cannotResolve => "cannotResolve" | .index => "index"
+
+def basis? (s : String) : Option BasisSpec :=
+  if s.startsWith "str:" then some (.str (GName.ofString (s.drop 4).toString))
+  else if s.startsWith "list:" then some (.list ((splitNE (s.drop 5).toString ",").map GName.ofString))
+  else none
+
+def step (line : String) : String :=
+  let fs := fields line
+  match fs.head? with
+  | some "resolve" =>
+    match fNat? fs "keep", (fStr? fs "basis").bind basis?, (fStr? fs "gates").bind gates? with
+    | some keep, some b, some gs =>
+      match resolve Gen.tables (keep != 0) b gs with
+      | .ok out => "ok " ++ showGates out
+      | .error e => "err " ++ errName e
+    | _, _, _ => "bad-op"
+  | _ => "bad-op"
+
 def main : IO Unit := serve step
